@@ -1229,11 +1229,20 @@ impl CodegenContext {
         f: F,
     ) -> CoreResult<()> {
         let prev_segment = self.current_segment.clone();
-        self.segments
+        // When nested (an untaken branch inside an uninvoked macro), the enclosing dummy segment has to survive
+        let prev_dummy = self
+            .segments
             .insert("$dummy".into(), Segment::new(SegmentOptions::default()));
         self.current_segment = Some(Identifier::new("$dummy"));
         let result = f(self);
-        self.segments.remove(&Identifier::new("$dummy"));
+        match prev_dummy {
+            Some(dummy) => {
+                self.segments.insert("$dummy".into(), dummy);
+            }
+            None => {
+                self.segments.remove(&Identifier::new("$dummy"));
+            }
+        }
         self.current_segment = prev_segment;
         result
     }
